@@ -399,5 +399,192 @@ def r07_2(ctx):
     return r
 
 
+ALLOC_CALLS = ("::with_capacity", "::from_elem", "::reserve", "::reserve_exact", "::resize", "::resize_with", "::repeat", "::zeroed")
+NARROW = ("u8", "u16", "i8", "i16", "bool")
+
+
+def _alloc_size_term(b, t, p):
+    args = [b.term_operand(a) for a in t["a"]]
+    if p.endswith("::with_capacity"):
+        return args[0] if args else None
+    return args[1] if len(args) > 1 else None
+
+
+class _SizeClass:
+    """how large can an allocation size get? classify(body, term) -> (ok, why). ok means: a constant, a value of a
+    <= 16 bit type, or linear (constant coefficients) in the lengths of buffers that already exist. Follows crate
+    callees into their return values, parameters out to every call site of the function, and multiply-defined locals
+    into all their definitions."""
+
+    def __init__(self, facts):
+        self.facts = facts
+        self._callers = None
+
+    def callers(self, fn):
+        if self._callers is None:
+            self._callers = {}
+            for b in self.facts.all_bodies():
+                if "::tests::" in b.name:
+                    continue
+                for bi, t, p in b.calls():
+                    for q in {p, t["f"].get("fn")}:
+                        if q and self.facts.has_body(q):
+                            self._callers.setdefault(q, []).append((b, bi, t))
+        return self._callers.get(fn, [])
+
+    def classify(self, b, t, depth=0, seen=()):
+        k = t[0]
+        if depth > 28:
+            return False, "term too deep"
+        if k in ("const", "item") or mir.int_value(t) is not None:
+            return True, "const"
+        if k == "cast":
+            if t[3] in NARROW:
+                return True, "narrow:" + t[3]
+            return self.classify(b, t[1], depth + 1, seen)
+        if k == "call":
+            last = t[1].split("::")[-1]
+            if last in ("len", "remaining", "capacity", "remaining_mut"):
+                return True, "len"
+            if "impl u16>" in t[1] or "impl u8>" in t[1] or "impl i16>" in t[1] or last in ("get_u8", "get_u16", "get_i16", "get_u16_le"):
+                return True, "narrow:" + last
+            if last == "min":
+                res = [self.classify(b, a, depth + 1, seen) for a in t[2]]
+                if any(o for o, _ in res):
+                    return True, "min(bounded)"
+            if last in ("min", "max", "clamp", "saturating_sub", "saturating_add", "wrapping_sub", "wrapping_add", "div_ceil", "next_multiple_of"):
+                res = [self.classify(b, a, depth + 1, seen) for a in t[2]]
+                bad = [w for o, w in res if not o]
+                return (not bad), (bad[0] if bad else "arith")
+            if last == "map_or" and len(t[2]) == 3 and t[2][2][0] == "closure" and self.facts.has_body(t[2][2][1]):
+                d = self.classify(b, t[2][1], depth + 1, seen)
+                cb = self.facts.body(t[2][2][1])
+                res = [d] + [self.classify(cb, x, depth + 1, seen + (("ret", cb.name),)) for x in cb.var_def_terms(0)]
+                bad = [w for o, w in res if not o]
+                return (not bad), (bad[0] if bad else "map_or")
+            if self.facts.has_body(t[1]) and ("ret", t[1]) not in seen:
+                cb = self.facts.body(t[1])
+                res = [self.classify(cb, d, depth + 1, seen + (("ret", t[1]),)) for d in cb.var_def_terms(0)]
+                bad = [w for o, w in res if not o]
+                if res and not bad:
+                    return True, "callee:" + last
+                return False, "return value of %s (%s)" % (last, bad[0] if bad else "no definition found")
+            return False, "value of %s" % t[1].split("<")[0][-60:]
+        if k == "bin":
+            if t[1] in ("Mul", "MulUnchecked", "Shl", "ShlUnchecked") and mir.int_value(t[2]) is None and mir.int_value(t[3]) is None:
+                return False, "product of two non-constant values"
+            a, c = self.classify(b, t[2], depth + 1, seen), self.classify(b, t[3], depth + 1, seen)
+            if a[0] and c[0]:
+                return True, "arith"
+            return False, (a[1] if not a[0] else c[1])
+        if k == "un":
+            return self.classify(b, t[2], depth + 1, seen)
+        if k == "var":
+            key = ("var", b.name, t[2])
+            if key in seen:
+                return True, "self"          # x = x + bounded: accumulation inside a loop that R07.2 bounds
+            if b.locals[t[2]]["ty"] in NARROW:
+                return True, "narrow:" + b.locals[t[2]]["ty"]
+            res = [self.classify(b, d, depth + 1, seen + (key,)) for d in b.var_def_terms(t[2])]
+            bad = [w for o, w in res if not o]
+            return (bool(res) and not bad), (bad[0] if bad else ("defs" if res else "no definition"))
+        if k == "arg":
+            idx = None
+            for i, l in enumerate(b.locals):
+                if l.get("n") == t[1] and 1 <= i <= b.rec.get("argc", 0):
+                    idx = i - 1
+            if idx is not None and b.locals[idx + 1]["ty"] in NARROW:
+                return True, "narrow:" + b.locals[idx + 1]["ty"]
+            key = ("arg", b.name, t[1])
+            if idx is None or key in seen:
+                return False, "parameter %s" % t[1]
+            sites = self.callers(b.name)
+            if not sites:
+                # no crate caller at all: a public entry point - the application, not the peer, chooses the value
+                return True, "application-chosen (parameter %s of %s, which has no caller in the crate)" % (t[1], b.name.split("::")[-1])
+            for cb, bi, ct in sites:
+                if idx >= len(ct["a"]):
+                    return False, "parameter %s" % t[1]
+                o, w = self.classify(cb, cb.term_operand(ct["a"][idx]), depth + 1, seen + (key,))
+                if not o:
+                    return False, "parameter %s, passed at %s: %s" % (t[1], cb.where(bi), w)
+            return True, "param: bounded at all %d call sites" % len(sites)
+        return False, "%s value (%s)" % (k, mir.show(t, 50))
+
+
+def _bounding_guard(sc, b, site, sz):
+    """is the allocation reachable only through edges on which the size (or the value it is a cast of) was compared
+    with something bounded and found not larger?  -> description or None"""
+    cands = [sz]
+    x = sz
+    while x[0] == "cast":
+        x = x[1]
+        cands.append(x)
+
+    def bounded_edge(term, meaning, *_):
+        t, neg = term, False
+        while t[0] == "un" and t[1] == "Not":
+            t, neg = t[2], not neg
+        if t[0] != "bin" or t[1] not in ("Gt", "Ge", "Lt", "Le") or not isinstance(meaning, bool):
+            return False
+        l, rr = t[2], t[3]
+        truth = meaning != neg
+        for (a, c, ops_small) in ((l, rr, ("Lt", "Le")), (rr, l, ("Gt", "Ge"))):
+            # a is the size, c the bound: size < / <= bound holds on this edge
+            if a in cands and sc.classify(b, c)[0]:
+                if (t[1] in ops_small) == truth:
+                    return True
+        return False
+    g = core.guard_edges(b, bounded_edge)
+    if g and core.k1(b, [site], g)[site] is None:
+        return "guarded: every path to the allocation passes a `size <= bounded` edge"
+    return None
+
+
+def r07_3(ctx):
+    """the 'bloat' clause, as far as explicit allocation requests go: in the decoder layer and everything it calls,
+    the size handed to with_capacity / vec![_; n] / reserve / resize is a constant, a value of a type of at most 16
+    bits (so at most 64 Ki elements), or linear in the lengths of buffers that already exist - never a 32/64-bit value
+    read from the wire, a product of two wire values, or something the analysis cannot bound. Anything else is in the
+    table with its reason. (Growth by push inside a loop is bounded by R07.2: every trip consumes input.)"""
+    r = RuleResult("R07.3", "K7", "explicit allocation sizes are constants, narrow values or linear in existing buffer lengths")
+    table = load_table()
+    names = scope_closure(ctx.facts)
+    sc = _SizeClass(ctx.facts)
+    n = 0
+    ordn = {}
+    for name in names:
+        if "::tests::" in name or "_serde::" in name:
+            continue
+        b = ctx.facts.body(name)
+        for bi, t, p in b.calls():
+            if not p or bi in b.cleanup or not p.endswith(ALLOC_CALLS):
+                continue
+            sz = _alloc_size_term(b, t, p)
+            if sz is None:
+                continue
+            n += 1
+            ok, why = sc.classify(b, sz)
+            base = p.split("::")[-1]
+            o = ordn.get((name, base), 0)
+            ordn[(name, base)] = o + 1
+            key = "%s|alloc|%s|%d" % (name, base, o)
+            if not ok:
+                g = _bounding_guard(sc, b, bi, sz)
+                if g:
+                    ok, why = True, g
+            if ok:
+                r.ok({"site": b.where(bi), "size": mir.show(sz, 70), "class": why} if n <= 40 else None)
+            elif key in table:
+                r.ok({"site": b.where(bi), "table": key, "reason": table[key]["reason"]})
+            else:
+                r.violate(name, "alloc|%s" % base, b.where(bi),
+                          "allocation of %s elements: %s - a peer-chosen or unbounded size (not a constant, not a <= 16-bit value, "
+                          "not linear in the length of an existing buffer)" % (mir.show(sz, 80), why))
+    r.samples = [x for x in r.samples if x]
+    r.need("explicit allocation sites in scope", n, 40)
+    return r
+
+
 def run(ctx):
-    return [r07_1(ctx), r07_2(ctx)]
+    return [r07_1(ctx), r07_2(ctx), r07_3(ctx)]
